@@ -215,7 +215,7 @@ func TestExt03FailsClosed(t *testing.T) {
 	spec := func(fn string) TransSpec {
 		return TransSpec{Dir: "internal/refused", Ext03: true, Structs: []string{"In", "Out", "Peek"}, Ifaces: map[string][]string{"Thing": {"Out"}}, Funcs: []string{fn}}
 	}
-	for _, fn := range []string{"Peek.Poke", "Peek.PokeCall", "NilView", "IfaceVar", "Out.CallIface", "CallFill", "LitShares", "BigConv"} {
+	for _, fn := range []string{"Peek.Poke", "Peek.PokeCall", "NilView", "IfaceVar", "Out.CallIface", "CallFill", "LitShares", "BigConv03"} {
 		_, err := Translate(".", spec(fn))
 		if err == nil || !strings.Contains(err.Error(), "unsupported") || !strings.Contains(err.Error(), "ext03.go:") {
 			t.Errorf("%s: expected `unsupported: ... at file:line`, got %v", fn, err)
